@@ -289,6 +289,7 @@ func runC13(w *vx.W) {
 		mixLen = 4
 	}
 	mixFamily(w, mixLen)
+	mixLongRuns(w, []int{2, 3, 4, 5, 6})
 	c10MixChains(w) // the same words as members of a chain: nothing may cross a file boundary
 	locals := []byte{0, 1, 3, 4, 15}
 	alpha := c13Alphabet(locals)
